@@ -263,6 +263,83 @@ Theorem C20_drawn_mark_of_source : forall sp pt a,
 Proof. exact drawn_mark_of_source. Qed.
 Print Assumptions C20_drawn_mark_of_source.
 
+(* ---- round 3: wrappers, encodings, colour scales, constructor kwargs ---- *)
+(* make_space_component(backend=...)(model) hands Solara exactly the data of draw_space / _draw_grid ... *)
+Theorem C20_component_same_data : forall sp pt st,
+  step sp pt st (DrawMplC false) = step sp pt st DrawMpl /\
+  step sp pt st (DrawAltairC false) = step sp pt st DrawAltair.
+Proof. exact component_same_data. Qed.
+Print Assumptions C20_component_same_data.
+
+(* ... and without an agent_portrayal, after any history, one default marker per agent *)
+Theorem C20_component_default_portrayal : forall c ops,
+  let sp := c_space c in let pt := c_portrayal c in
+  let st := exec sp pt (init_state c) ops in
+  snd (step sp pt st (DrawMplC true)) = obs_rows (map mark_row (map (drawn_mark sp []) (st_agents st))).
+Proof. exact component_default_portrayal. Qed.
+Print Assumptions C20_component_default_portrayal.
+
+(* Altair encodings (colour / size legends and scales) are taken from the FIRST row of the data only.
+   Full statement, "the chart encodes colour (size) whenever some agent's portrayal returned one":
+     forall c ops, (exists a in the space with a colour) -> enc_color = 1
+   holds when all agents portray the same key set (partial) and is REFUTED in general: *)
+Theorem C20_altair_encoding_partial : forall c ops kc ks,
+  let sp := c_space c in let pt := c_portrayal c in
+  let st := exec sp pt (init_state c) ops in
+  altair_supported sp -> st_agents st <> [] ->
+  (forall a, In a (st_agents st) -> oflag (pd_color (portray pt (a_kind a))) = kc /\
+                                     oflag (pd_size (portray pt (a_kind a))) = ks) ->
+  enc_color sp pt (st_agents st) = kc /\ enc_size sp pt (st_agents st) = ks.
+Proof. exact altair_encoding_uniform. Qed.
+Print Assumptions C20_altair_encoding_partial.
+
+Definition enc_case : case :=
+  {| c_space := {| sp_family := Orth; sp_w := 2; sp_h := 1; sp_x0 := 0; sp_y0 := 0; sp_single := false;
+                   sp_legacy := true; sp_altair := 2; sp_points := [] |};
+     c_portrayal := [(0, pd_empty); (1, {| pd_size := Some 40; pd_color := Some 3; pd_marker := None; pd_zorder := None |})];
+     c_layer := None; c_ops := [Place 1 0 0 0; Place 2 1 1 0] |}.
+
+Theorem C20_altair_encoding_first_row_only_refuted :
+  exists c ops,
+    let sp := c_space c in let pt := c_portrayal c in
+    let st := exec sp pt (init_state c) ops in
+    altair_supported sp /\
+    (exists a, In a (st_agents st) /\ pd_color (portray pt (a_kind a)) = Some 3 /\ pd_size (portray pt (a_kind a)) = Some 40) /\
+    enc_color sp pt (st_agents st) = 0 /\ enc_size sp pt (st_agents st) = 0.
+Proof.
+  exists enc_case, (c_ops enc_case). cbv zeta. split; [left; split; [right; reflexivity|left; reflexivity]|].
+  split; [|vm_compute; split; reflexivity].
+  exists {| a_id := 2; a_kind := 1; a_pos := Some (1, 0); a_cell := None |}. vm_compute. repeat split. right. left. reflexivity.
+Qed.
+Print Assumptions C20_altair_encoding_first_row_only_refuted.
+
+(* colour scales: inside [vmin, vmax] different layer values are always shown differently (every mode, alpha 1/4..1) *)
+Theorem C20_layer_values_distinguished : forall fam cm lo hi a4 v v',
+  lo < hi -> lo <= v <= hi -> lo <= v' <= hi -> 0 < a4 <= 4 ->
+  shown fam cm lo hi a4 v = shown fam cm lo hi a4 v' -> v = v'.
+Proof. exact shown_injective. Qed.
+Print Assumptions C20_layer_values_distinguished.
+
+(* observations about the normalisation expressions (what reaches Matplotlib):
+   - imshow colour mode does not saturate at vmax when alpha < 1 (clip(normalized * alpha)), hexagons do (clip(normalized) * alpha)
+   - with vmin = vmax (a constant layer under the default scale) the imshow colour mode hands over NaN alpha, hexagons alpha 0 *)
+Theorem C20_layer_scale_observations :
+  (shown Orth true 0 4 2 8 <> shown Orth true 0 4 2 4 /\ shown Hex true 0 4 2 8 = shown Hex true 0 4 2 4) /\
+  (forall lo, shown_degenerate Orth true lo lo = NAN /\ shown_degenerate Hex true lo lo = 0) /\
+  (forall lo v, shown_degenerate Orth false lo v = v).
+Proof.
+  split; [split; [vm_compute; discriminate|vm_compute; reflexivity]|].
+  split; [intros lo; unfold shown_degenerate; rewrite Z.eqb_refl; split; reflexivity|reflexivity].
+Qed.
+Print Assumptions C20_layer_scale_observations.
+
+(* ModelCreator: the keyword arguments the model is (re)created with are exactly one (name, value) per given
+   parameter - the fixed value itself, or the initial value of the Slider / option dict - nothing lost or invented *)
+Theorem C20_creator_kwargs_lossless : forall ps,
+  Permutation (creator_kwargs ps) (map (fun kv => (fst kv, pv_value (snd kv))) ps).
+Proof. exact creator_kwargs_lossless. Qed.
+Print Assumptions C20_creator_kwargs_lossless.
+
 (* ------------------------------------------------------------------ non-vacuity *)
 Definition ex_space : space :=
   {| sp_family := Hex; sp_w := 3; sp_h := 2; sp_x0 := 0; sp_y0 := 0; sp_single := false;
@@ -279,10 +356,10 @@ Definition ex_case : case :=
    z-order 6/4 = 1.5 from its portrayal, agent 3 the default size 180^2/3^2 and z-order 1 *)
 Example C20_example_one_marker_each :
   let st := exec ex_space (c_portrayal ex_case) (init_state ex_case) (c_ops ex_case) in
-  map a_id (st_agents st) = [1; 3] /\
+  map a_id (st_agents st) = [3; 1] /\
   option_map (fun gs => map mark_row (drawn_marks gs))
              (draw_groups ex_space (c_portrayal ex_case) (st_agents st))
-  = Some [[3; 0; 7; 4; 3; 0; 6]; [1; 0; 3600; 1; 0; 1; 4]].
+  = Some [[1; 0; 3600; 1; 0; 1; 4]; [3; 0; 7; 4; 3; 0; 6]].
 Proof. vm_compute. split; reflexivity. Qed.
 
 Example C20_example_scatter_partition :
@@ -336,7 +413,7 @@ Proof. vm_compute. reflexivity. Qed.
 
 (* def __init__(self, a, b=1, /, c, *, d, **options) needs c and d: a Slider for c counts *)
 Example C20_example_creator :
-  step ex_space [] (init_state ex_case) (Creator ex_sig [(3, VSlider 5); (4, VFixed 1)]) = (init_state ex_case, [0]) /\
+  step ex_space [] (init_state ex_case) (Creator ex_sig [(3, VSlider 5); (4, VFixed 1)]) = (init_state ex_case, [0; 2; 3; 5; 4; 1]) /\
   step ex_space [] (init_state ex_case) (Creator ex_sig [(3, VSlider 5)]) = (init_state ex_case, [-1; 2]).
 Proof. vm_compute. split; reflexivity. Qed.
 
@@ -362,4 +439,14 @@ Example C20_example_source :
   (gen_hex_center_x 1 1, gen_hex_center_y 1) = (2, 3) /\
   gen_hex_layer_colors 3 2 [[1; 2]; [3; 4]; [5; 6]] = [1; 3; 5; 2; 4; 6] /\
   gen_split_model_params [(1, VFixed 5); (2, VSlider 6)] = ([(2, VSlider 6)], [(1, VFixed 5)]).
+Proof. vm_compute. repeat split; reflexivity. Qed.
+
+Example C20_example_round3 :
+  let st := exec (c_space enc_case) (c_portrayal enc_case) (init_state enc_case) (c_ops enc_case) in
+  obs_altair_enc (c_space enc_case) (c_portrayal enc_case) (st_agents st) = [0; 0; 0; 0; 0; 30000; 1] /\
+  obs_altair_enc (c_space enc_case) (c_portrayal enc_case) (st_agents (exec (c_space enc_case) (c_portrayal enc_case) st [Move 1 1 0; Move 1 0 0; Remove 1]))
+    = [0; 1; 1; 0; 0; 0; 1] /\
+  creator_kwargs [(1, VFixed 5); (2, VSlider 6); (3, VDictType 7); (4, VDictNoType 8)] = [(1, 5); (4, 8); (2, 6); (3, 7)] /\
+  obs_layer ex_space [[3; 3]; [3; 3]; [3; 3]] true None None 4 true = [0; 2; 3; 0; 0; 0; 0; 0; 0; 1] /\
+  obs_layer (c_space enc_case) [[3]; [5]] true (Some 3) (Some 3) 4 false = [0; 1; 2; -7; 4; 0].
 Proof. vm_compute. repeat split; reflexivity. Qed.
